@@ -213,8 +213,10 @@ ref_parse_fields(const uint8_t *b, size_t n, fld_t *f, int *nf) {
 		if (c == e || c == pos) return (-1); /* no colon / empty name: not a header-field */
 		if (*nf == MAXF) return (-2);
 		vs = c + 1; ve = e;
-		while (vs < ve && (b[vs] == ' ' || b[vs] == '\t')) vs ++;
-		while (ve > vs && (b[ve - 1] == ' ' || b[ve - 1] == '\t')) ve --;
+		/* OWS at the edges; CR and LF can stand there only as part of an obs-fold (the field ends at the first
+		 * CRLF not followed by SP / HTAB), and a fold is white space */
+		while (vs < ve && (b[vs] == ' ' || b[vs] == '\t' || b[vs] == '\r' || b[vs] == '\n')) vs ++;
+		while (ve > vs && (b[ve - 1] == ' ' || b[ve - 1] == '\t' || b[ve - 1] == '\r' || b[ve - 1] == '\n')) ve --;
 		f[*nf].noff = pos; f[*nf].nlen = c - pos; f[*nf].voff = vs; f[*nf].vlen = ve - vs;
 		(*nf) ++;
 		pos = e + 2;
@@ -464,9 +466,12 @@ static const struct { const char *s; int kind; } NAMES[] = {
 	{ "Transfer-Encoding", K_TE }, { "transfer-encoding", K_TE }, { "TRANSFER-ENCODING", K_TE },
 	{ "X-A", K_XA }, { "x-a", K_XA }, { "Hostx", K_HOSTX }, { "HOSTX", K_HOSTX }, { "xHost", K_XHOST }, { "xhost", K_XHOST } };
 #define NNAMES 16
-static const char *VALS[] = { "", "v", " v ", "v\r\n\t w" };
-static const size_t VTRIM_OFF[] = { 0, 0, 1, 0 }, VTRIM_LEN[] = { 0, 1, 1, 6 };
-#define NVALS 4
+/* the last three: a fold directly after the colon, a fold at the end of the value, both plus one inside
+ * (used in blocks of <= 2 fields only, see gen_hdr_all) */
+static const char *VALS[] = { "", "v", " v ", "v\r\n\t w", "\r\n\tv", "v\r\n ", "\r\n v\r\n\t w\r\n " };
+static const size_t VTRIM_OFF[] = { 0, 0, 1, 0, 3, 0, 3 }, VTRIM_LEN[] = { 0, 1, 1, 6, 1, 1, 6 };
+#define NVALS 7
+#define NVALS_MAIN 4
 #define NFC (NNAMES * NVALS)	/* field choices */
 static size_t FLEN[NFC]; /* name + ':' + raw value */
 
@@ -693,9 +698,12 @@ gen_hdr_all(void) {
 			 * 10-element boundary set at every position (the adjacent-byte contexts of an insertion are
 			 * the same as in 2-field blocks).  Field-insert edits of 3-field bases would only produce
 			 * 4-field blocks, all of which the thorough walk visits anyway. */
+			for (i = 0; n > 2 && i < n; i ++) if (fc[i] % NVALS >= NVALS_MAIN) break;
+			if (n > 2 && i < n) goto next_tuple;	/* edge folds: blocks of <= 2 fields only */
 			if (n <= 2) hdr_block(fc, n, 2, 1, 1);
 			else if (n == 3) hdr_block(fc, n, vh_thorough ? 1 : 0, 1, 0);
 			else hdr_block(fc, n, 0, 0, 0);
+next_tuple:
 			for (i = n - 1; i >= 0; i --) { if (++ fc[i] < NFC) break; fc[i] = 0; }
 			if (i < 0) break;
 		}
